@@ -23,6 +23,7 @@ import (
 	"fmt"
 	"go/token"
 	"go/types"
+	"math/big"
 	"sort"
 	"strings"
 )
@@ -76,7 +77,12 @@ func c13model(c *Ctx) {
 		}
 		return -1
 	}
+	tolNote := ""      // a deviation compared with something other than the tolerance
+	var constAns *bool // set: every distance question gets this answer (the multi-geometry facet)
 	ask := func(key string) bool {
+		if constAns != nil {
+			return *constAns
+		}
 		if a, ok := run.memo[key]; ok {
 			return a
 		}
@@ -145,6 +151,38 @@ func c13model(c *Ctx) {
 		atom, left := la, true
 		if la == "" {
 			atom, left = lb, false
+		}
+		// what the deviation is measured against: the tolerance itself (or both sides squared)
+		if tolNote == "" {
+			d := a.add(b, -1)
+			okForm := len(d) == 2
+			deg := map[bool]int{}
+			for k, cf := range d {
+				fs := strings.Split(k, "*")
+				isDistTerm, isTolTerm := true, true
+				for _, f := range fs {
+					if !strings.HasPrefix(f, "dist_") {
+						isDistTerm = false
+					}
+					if f != "tol" {
+						isTolTerm = false
+					}
+				}
+				if !(isDistTerm || isTolTerm) || new(big.Rat).Abs(cf).Cmp(big.NewRat(1, 1)) != 0 {
+					okForm = false
+				}
+				deg[isDistTerm] = len(fs)
+			}
+			if okForm && deg[true] != deg[false] {
+				okForm = false
+			}
+			if !okForm {
+				other := b
+				if !left {
+					other = a
+				}
+				tolNote = fmt.Sprintf("the deviation %s is compared with %s, not with the tolerance (or both squared)", atom, short(other.canon()))
+			}
 		}
 		var k, x, y int
 		fmt.Sscanf(atom, "dist_%d_%d_%d", &k, &x, &y)
@@ -509,6 +547,171 @@ func c13model(c *Ctx) {
 				}
 			}
 		}
+	}
+	// ---- C13.R4: the multi-geometries simplify member by member.  With every deviation question
+	// answered the same way (all "within tolerance": each curve collapses as far as it can; all
+	// "beyond": nothing is dropped) and every shortcut found simple, MultiLineString.Simplify and
+	// MultiPolygon.Simplify must return, at index i, what LineString.Simplify / Polygon.Simplify
+	// returns for member i, over the full range, in storage the input does not share.
+	{
+		mlsF := c.P.Method("geom", "MultiLineString", "Simplify")
+		mpgF := c.P.Method("geom", "MultiPolygon", "Simplify")
+		simpleFixed = true
+		seqOf := func(v oval) ([][]int, bool) {
+			// a geometry value as the index sequences of its curves
+			if iv, ok := v.(oIface); ok {
+				v = iv.dyn
+			}
+			sl, ok := v.(oSlice)
+			if !ok {
+				return nil, false
+			}
+			var out [][]int
+			var walk func(s oSlice) bool
+			walk = func(s oSlice) bool {
+				if s.length() == 0 {
+					out = append(out, nil)
+					return true
+				}
+				if _, isPt := s.at(0).(*oStruct); isPt {
+					var seq []int
+					for i := 0; i < s.length(); i++ {
+						k := idx(s.at(i))
+						if k < 0 {
+							return false
+						}
+						seq = append(seq, k)
+					}
+					out = append(out, seq)
+					return true
+				}
+				for i := 0; i < s.length(); i++ {
+					sub, ok := s.at(i).(oSlice)
+					if !ok || !walk(sub) {
+						return false
+					}
+				}
+				return true
+			}
+			return out, walk(sl)
+		}
+		for _, tcase := range []struct {
+			name   string
+			multi  *types.Func
+			single *types.Func
+		}{{"MultiLineString", mlsF, lsF}, {"MultiPolygon", mpgF, pgF}} {
+			cons := "geom.(" + tcase.name + ").Simplify#members"
+			if tcase.multi == nil || c.P.Decl(tcase.multi) == nil {
+				c.Unk("C13.R4", cons, token.NoPos, "API anchor does not resolve")
+				continue
+			}
+			bad, unk := "", ""
+			for _, far := range []bool{false, true} {
+				if bad != "" || unk != "" {
+					break
+				}
+				ans := far
+				constAns = &ans
+				run = &c13run{memo: map[string]bool{}}
+				vertexOf = map[int64]int{}
+				next := 0
+				mkCurve := func(t types.Type, n int) oSlice {
+					var pts []oval
+					for i := 0; i < n; i++ {
+						x := int64(10 + 20*next)
+						vertexOf[x] = next
+						pts = append(pts, it.point(m.ptT, x, x+1))
+						next++
+					}
+					return m.sliceOf(t, pts)
+				}
+				var members []oval
+				var whole oval
+				if tcase.name == "MultiLineString" {
+					for _, n := range []int{4, 2, 5, 3} {
+						members = append(members, mkCurve(m.lsT, n))
+					}
+					whole = m.sliceOf(m.mlsT, members)
+				} else {
+					for _, ns := range [][]int{{5, 4}, {4}, {6, 4, 4}} {
+						var rings []oval
+						for _, n := range ns {
+							rings = append(rings, mkCurve(ringT, n))
+						}
+						members = append(members, m.sliceOf(m.polyT, rings))
+					}
+					whole = m.sliceOf(m.mpolyT, members)
+				}
+				mode := map[bool]string{false: "every deviation within the tolerance", true: "every deviation beyond the tolerance"}[far]
+				var want [][][]int
+				for i, mb := range members {
+					c.Evals(1)
+					res, why := it.Call(tcase.single, deepCopy(mb), []oval{oSym{polyVar("tol")}}, 0)
+					if why != "" {
+						unk = fmt.Sprintf("member %d alone (%s): not interpretable: %s", i, mode, why)
+						break
+					}
+					seq, ok := seqOf(res[0])
+					if !ok {
+						unk = fmt.Sprintf("member %d alone (%s): the result is %s", i, mode, showVal(res[0]))
+						break
+					}
+					want = append(want, seq)
+				}
+				if unk != "" {
+					break
+				}
+				before := deepCopy(whole)
+				c.Evals(1)
+				res, why := it.Call(tcase.multi, whole, []oval{oSym{polyVar("tol")}}, 0)
+				if why != "" {
+					if strings.HasPrefix(why, "panic:") {
+						bad = fmt.Sprintf("%s.Simplify panics (%s): %s", tcase.name, mode, why)
+					} else {
+						unk = fmt.Sprintf("%s.Simplify (%s): not interpretable: %s", tcase.name, mode, why)
+					}
+					break
+				}
+				r0 := res[0]
+				if iv, ok := r0.(oIface); ok {
+					r0 = iv.dyn
+				}
+				out, ok := r0.(oSlice)
+				if !ok {
+					unk = fmt.Sprintf("%s.Simplify returns %s", tcase.name, showVal(res[0]))
+					break
+				}
+				if out.length() != len(members) {
+					bad = fmt.Sprintf("%s.Simplify of %d members returns %d (%s)", tcase.name, len(members), out.length(), mode)
+					break
+				}
+				for i := 0; i < out.length(); i++ {
+					got, ok := seqOf(out.at(i))
+					if !ok {
+						unk = fmt.Sprintf("member %d of the result is %s", i, showVal(out.at(i)))
+						break
+					}
+					if fmt.Sprint(got) != fmt.Sprint(want[i]) {
+						bad = fmt.Sprintf("%s: member %d of %s.Simplify is %v (vertex numbers), member %d simplified on its own is %v", mode, i, tcase.name, got, i, want[i])
+						break
+					}
+				}
+				if bad == "" && unk == "" && showVal(whole) != showVal(before) {
+					bad = fmt.Sprintf("%s.Simplify changes its receiver (%s)", tcase.name, mode)
+				}
+				if bad == "" && unk == "" {
+					if in, ok := whole.(oSlice); ok && in.arr != nil && out.arr == in.arr {
+						bad = fmt.Sprintf("%s.Simplify returns the receiver's own storage", tcase.name)
+					}
+				}
+			}
+			constAns = nil
+			report3(c, "C13.R4", cons, c.P.Decl(tcase.multi).Pos(), bad, unk, "member i of the result is member i simplified on its own, over the full range, under both constant answers; the receiver is unchanged and not shared")
+		}
+		simpleFixed = false
+	}
+	if tolNote != "" {
+		setBad(kDev, "%s: vertices further from the replacing segment than the tolerance are dropped, or nearer ones kept", tolNote)
 	}
 	for _, k := range vorder {
 		v := verdicts[k]
